@@ -1074,6 +1074,28 @@ class Engine:
             return
         o, spec = self.loop_spec(node)
         idx = spec.get("index", "__i%d" % o)
+        if isinstance(it, VRef) and it.cls in self.reg.iterator_models:
+            # an iterator object: every iteration takes items[cursor] and advances the cursor BEFORE the body runs (a return/break in the body leaves
+            # the element consumed), exhaustion leaves cursor == len(items)
+            items_f, cur_f = self.reg.iterator_models[it.cls]
+            items = self.load_field(st, it, items_f)
+            st.env[idx] = to_z3(self.load_field(st, it, cur_f))
+            spec = dict(spec, modifies=list(spec.get("modifies", ())) + ["%s.%s" % (it.cls, cur_f)])
+            start = st.env[idx]
+
+            def implicit(s):
+                i = s.env[idx]
+                return [("cursor", z3.And(i >= start, i <= items.len, to_z3(self.load_field_raw(s, it, cur_f)) == i))]
+
+            def pre_body(s):
+                self.store_field(s, it, cur_f, s.env[idx] + 1)
+                self.assign(node.target, from_z3(items.arr[s.env[idx]], items.elem), s, True)
+
+            def post_body(s):
+                s.env[idx] = s.env[idx] + 1
+            yield from self.run_loop(st, o, spec, node.body, guard=lambda s: s.env[idx] < items.len, pre_body=pre_body, post_body=post_body,
+                                     extra_havoc=(idx,), auto_variant=lambda s: items.len - s.env[idx], implicit_inv=implicit)
+            return
         if isinstance(it, VRange):
             if not (isinstance(it.step, int) and it.step == 1):
                 raise Unsupported("range step")
@@ -1096,6 +1118,8 @@ class Engine:
                                      post_body=post_body, extra_havoc=(idx, ), auto_variant=lambda s: hi - s.env[idx],
                                      implicit_inv=implicit)
             return
+        if isinstance(it, VList):
+            st.env["__seq%d__" % o] = it          # invariants refer to the sequence a loop iterates over as seq(<loop>)
         self.last_set_iter = None
         seqlen, getter = self.iter_protocol(it, st)
         if seqlen is None:
@@ -1951,6 +1975,11 @@ class Engine:
         post.old = pre
         post.ghost = st.ghost
         ret = cc.returns.fresh("ret_" + cc.qualname.split(".")[-1]) if cc.returns is not None else NONE
+        if cc.extra.get("yields") is not None:
+            # a generator under contract, consumed by the caller: the sequence of yielded values (eager reading: sound when the consumer's effects do not
+            # interfere with the generator's state, which the caller's frame conditions have to show)
+            ret = LIST(cc.extra["yields"]).fresh("yielded_" + cc.qualname.split(".")[-1])
+            post.env["__yielded__"] = ret
         if cc.extra.get("result_is") is not None:
             # the callee is verified to return a value equal (on its index range) to this spec term; list elements outside
             # [0, len) are unobservable (every read carries an index obligation), so the spec term itself may stand for the result
